@@ -19,7 +19,7 @@ ASSUMPTIONS = [
     "reals, not floats; contraction off; isclose/allclose read as exact equality",
 ]
 BOUNDS = {"quick": "3 envelopes (Fock cut-off 2); Fock values: equal labels 0/0/0 and 1/1/1, independent vectors, independent matrices; "
-                   "12 actions",
+                   "23 actions (incl. envelope-level calls naming the Fock of another envelope)",
           "thorough": "same"}
 OPTS = {"quick": {"max_paths": 64, "timeout_ms": 10000, "case_timeout_s": 900, "exact_close": True},
         "thorough": {"max_paths": 128, "timeout_ms": 30000, "case_timeout_s": 1800, "exact_close": True}}
@@ -40,7 +40,9 @@ def _world(kind):
 
 ACTIONS = ["measure-all-sep", "measure-all", "measure-second-sep-nd", "measure-second", "combine", "combine-three", "cx-partners",
            "beamsplitter", "resize-second", "kraus-second", "povm-second", "trace_out-second", "op-second", "kraus-both", "povm-both",
-           "reorder-both", "expand-second"]
+           "reorder-both", "expand-second",
+           # an envelope-level call on e0 that names the Fock of ANOTHER envelope (holding an equal value on one side of the fork)
+           "foreign-kraus", "foreign-povm", "foreign-op", "foreign-measure", "foreign-reorder", "foreign-trace_out"]
 
 
 def cases(tier):
@@ -68,6 +70,10 @@ def scenario(B, case):
         c = {"world": w, "targets": targets, "entry": "composite", "sep": "sep" in act, "dest": not act.endswith("-nd")}
         return mc.scenario(B, c, "C05")
     W = World(B, w)
+    if act.startswith("foreign-"):
+        from harness.C17 import _foreign
+
+        return _foreign(B, W, {"foreign": "f1", "act": act.split("-", 1)[1]}, tag="C18")
     h = W.h
     ce = W.ces[0]
     f0, f1, f2 = W.sub("f0"), W.sub("f1"), W.sub("f2")
